@@ -156,6 +156,7 @@ def check(args):
         agg["threads"][out["nthreads"]] += 1
         agg["modes"][out["mode"]] += 1
         agg["hot_hits"] += out["hot_hits"]
+        agg["lock_waits"] = agg.get("lock_waits", 0) + out.get("lock_waits", 0)
         agg["probes"].update(out["probes"])
         agg["find_types_checked"] += out["probe"]["find_types_checked"]
         if any(v for k, v in out["probes"].items()):
@@ -222,6 +223,7 @@ def check(args):
                 "threads_histogram": {str(k): v for k, v in sorted(agg["threads"].items())},
                 "tracing_modes": dict(agg["modes"]),
                 "conflict_directed_preemptions": agg["hot_hits"],
+                "simulated_lock_waits": agg.get("lock_waits", 0),
                 "traced_code_objects": {m: len(c19.codes_for(m)) for m in ("shared", "writers", "all")},
                 "probes": dict(agg["probes"]),
                 "conflict_pairs": len(agg["pairs"]),
